@@ -47,15 +47,20 @@ type Opt struct {
 	InvokeTimeoutMs                                     int
 	App                                                 *tars.VerifApp
 	CommOpts                                            []tars.Option
+	Proto                                               string // "tcp" (default), "ssl", "udp"
 }
 
 // NewDirect creates a proxy for a fresh object name bound directly to the given addresses
 // ("127.0.0.1:port").
 func NewDirect(addrs []string, o Opt) *Client {
 	var eps []string
+	proto := o.Proto
+	if proto == "" {
+		proto = "tcp"
+	}
 	for _, a := range addrs {
 		h, p := netlab.HostPort(a)
-		eps = append(eps, fmt.Sprintf("tcp -h %s -p %s -t 60000", h, p))
+		eps = append(eps, fmt.Sprintf("%s -h %s -p %s -t 60000", proto, h, p))
 	}
 	return New(strings.Join(eps, ":"), o)
 }
